@@ -27,9 +27,10 @@ import (
 )
 
 var (
-	errC     = errors.New("cancel-matching error")
-	errN     = errors.New("plain error")
-	errLoser = errors.New("attempt was cancelled")
+	errC      = errors.New("cancel-matching error")
+	errN      = errors.New("plain error")
+	errLoser  = errors.New("attempt was cancelled")
+	errLoser2 = errors.New("another error that is never produced")
 )
 
 const fbVal = 999999
@@ -164,7 +165,7 @@ func run(sc scenario, propID string) (out runOut) {
 		}
 		b.CancelOnResult(-12345) // the list is never empty, so "cancel on any result" does not apply
 	case "errors":
-		b.CancelOnErrors(errC)
+		b.CancelOnErrors(errors.New("never produced"), errC, errLoser2) // several targets in one call
 	case "if":
 		b.CancelIf(func(v int, err error) bool { return err == nil && v%100 == 1 })
 	}
@@ -729,5 +730,99 @@ func TestHedgedRetryStats(t *testing.T) {
 		if hedgesSeen > 0 {
 			st.Sample(string(b), func() any { return sc })
 		}
+	})
+}
+
+// TestHedgeRounds: the same hedge policy is applied several times within one execution: Retry(Timeout(Hedge(fn))). In the
+// first round every attempt waits for its cancellation, so the round ends by the Timeout while hedged attempts are still
+// running (they finish only afterwards, as abandoned attempts); the retry starts a second round whose attempts answer
+// quickly. The caller must get a result produced by an attempt of the last round: nothing of an abandoned round may leak
+// into a later one.
+func TestHedgeRounds(t *testing.T) {
+	const test = "TestHedgeRounds"
+	st := harness.NewStats(test)
+	defer st.Flush()
+	rapid.Check(t, func(t *rapid.T) {
+		type scen struct {
+			MaxHedges int    `json:"max_hedges"`
+			DelayUs   int    `json:"delay_us"`
+			LimitUs   int    `json:"limit_us"`
+			Rounds    int    `json:"abandoned_rounds"`
+			Cancel    string `json:"cancel"`
+			Async     bool   `json:"async"`
+			LateUs    int    `json:"late_us"` // abandoned attempts return this long after their cancellation
+		}
+		sc := scen{MaxHedges: rapid.IntRange(1, 3).Draw(t, "maxHedges"), DelayUs: rapid.SampledFrom([]int{0, 100, 400}).Draw(t, "delayUs"),
+			LimitUs: rapid.SampledFrom([]int{800, 2000}).Draw(t, "limitUs"), Rounds: rapid.IntRange(1, 2).Draw(t, "rounds"),
+			Cancel: rapid.SampledFrom([]string{"default", "if"}).Draw(t, "cancel"), Async: rapid.Bool().Draw(t, "async"), LateUs: rapid.SampledFrom([]int{0, 50, 300}).Draw(t, "lateUs")}
+		hb := hedgepolicy.BuilderWithDelay[int](time.Duration(sc.DelayUs) * time.Microsecond).WithMaxHedges(sc.MaxHedges)
+		if sc.Cancel == "if" {
+			hb.CancelIf(func(v int, err error) bool { return err == nil && v > 0 })
+		}
+		rp := retrypolicy.Builder[int]().WithMaxRetries(sc.Rounds).HandleErrors(timeout.ErrExceeded).Build()
+		to := timeout.With[int](time.Duration(sc.LimitUs) * time.Microsecond)
+		var mu sync.Mutex
+		produced := map[int]int{} // value -> round that produced it
+		entries := map[int]int{}
+		next := 0
+		fn := func(exec failsafe.Execution[int]) (int, error) {
+			round := exec.Retries()
+			mu.Lock()
+			next++
+			id := next
+			entries[round]++
+			mu.Unlock()
+			if round < sc.Rounds || exec.IsCanceled() {
+				// an abandoned round ends by the Timeout. (A hedge launched just before its round was abandoned can enter
+				// late, when Retries() already counts the next round: it is recognised by its cancelled execution.)
+				<-exec.Canceled()
+				time.Sleep(time.Duration(sc.LateUs) * time.Microsecond)
+				return -id, errLoser
+			}
+			mu.Lock()
+			produced[1000+id] = round
+			mu.Unlock()
+			return 1000 + id, nil
+		}
+		ex := failsafe.NewExecutor[int](rp, to, hb.Build())
+		var v int
+		var err error
+		doneCh := make(chan struct{})
+		go func() {
+			defer close(doneCh)
+			if sc.Async {
+				v, err = ex.GetWithExecutionAsync(fn).Get()
+			} else {
+				v, err = ex.GetWithExecution(fn)
+			}
+		}()
+		select {
+		case <-doneCh:
+		case <-harness.After(30 * time.Second):
+			harness.Violation(t, "C09", test, "rounds-hang", sc, "%+v: the call had not returned after 30s", sc)
+		}
+		mu.Lock()
+		r, ok := produced[v]
+		ent := map[int]int{}
+		for k, n := range entries {
+			ent[k] = n
+		}
+		mu.Unlock()
+		if errors.Is(err, timeout.ErrExceeded) {
+			// a stall can let the last round time out as well: then the retries are exhausted and this is the outcome
+			st.Count("last_round_timed_out", 1)
+		} else if err != nil || !ok || r != sc.Rounds {
+			harness.Violation(t, "C09", test, "stale-result-from-abandoned-round", sc, "%+v: the call returned (%d,%v); only an attempt of round %d can have produced the result (values produced there: %v)", sc, v, err, sc.Rounds+1, produced)
+		}
+		total := 0
+		for _, n := range ent {
+			total += n
+		}
+		if total > (sc.Rounds+1)*(sc.MaxHedges+1) {
+			harness.Violation(t, "C09", test, "too-many-attempts", sc, "%+v: %d attempts over %d rounds, maxHedges allows %d per round", sc, total, sc.Rounds+1, sc.MaxHedges+1)
+		}
+		b, _ := json.Marshal(sc)
+		st.Case(string(b), true, fmt.Sprintf("abandoned-rounds=%d", sc.Rounds))
+		st.Sample(string(b), func() any { return sc })
 	})
 }
